@@ -44,6 +44,7 @@ class Fixture(object):
         self.held = {k: [] for k in keys}
         self.pending = []       # (k, AsyncResult) of Request(k) not yet collected
         self.use_results = []   # AsyncResults of PassBack
+        self.sent = []          # (k, AsyncResult) of Send / SendPair
 
         class Owner(rpyc.Service):
             def exposed_get(self, k):
@@ -158,10 +159,21 @@ class Fixture(object):
 
     # -- actions
     def send(self, k):
-        self.sched.call(lambda: self.a_store(self.objs[k]))
+        self.sent.append((k, self.sched.call(lambda: self.a_store(self.objs[k]))))
 
     def send_pair(self, k):
-        self.sched.call(lambda: self.a_store((self.objs[k], self.objs[k])))
+        self.sent.append((k, self.sched.call(lambda: self.a_store((self.objs[k], self.objs[k])))))
+
+    def failed_sends(self):
+        """requests that carried a reference to the holder and were answered with an exception: the reference never arrived"""
+        out = []
+        for k, ares in self.sent:
+            try:
+                if ares.ready and ares.error:
+                    out.append((k, self.sched.call(lambda: repr(object.__getattribute__(ares, "_obj")))[:120]))
+            except Exception:
+                pass
+        return out
 
     def request(self, k):
         self.pending.append((k, self.sched.call(lambda: self.a_get(k))))
@@ -300,6 +312,10 @@ def oracle(fx, act, k, delivered, n_touched_before):
         kk = delivered["k"]
         if len(fx.touched) != n_touched_before + 1 or fx.touched[-1] is not fx.objs[kk]:
             bad.append(("use-failed", "a request using the live proxy of %s did not reach the object at its owner" % kk))
+    if not fx.closed:
+        for kk, why in fx.failed_sends():
+            bad.append(("reference-lost", "a reference to %s sent to the holder never arrived as a proxy: the request carrying it "
+                        "failed with %s" % (kk, why)))
     if fx.closed:
         for kk in fx.objs:
             if fx.extra_refs(kk) > 0:
@@ -402,6 +418,11 @@ def replay_graph(chk, keys, maxbox, maxq, max_paths, fresh=False):
     rnd = random.Random(chk.seed)
     if len(paths) > max_paths:
         rnd.shuffle(paths)
+        if fresh:
+            # histories in which an unboxing is suspended inside another one come first: that is what this mode is for
+            def depth(path):
+                return max([len(g.nodes[path[0]].get("hstack", ()))] + [len(g.nodes[d].get("hstack", ())) for _, d in path[1:]])
+            paths.sort(key=lambda p_: -depth(p_))
         paths = paths[:max_paths]
     covered = 0
     for pi, path in enumerate(paths):
@@ -487,6 +508,58 @@ def random_history(chk, rnd, keys, length, fresh=False):
                 trace.append(ev)
             if act == "Close":
                 break
+        drain(chk, fx, hist, keys)
+        return trace, hist
+    finally:
+        fx.teardown()
+
+
+SCRIPTS = [
+    # two references back to back (the second is unboxed inside the first one's INSPECT round trip), a third one crossing the
+    # release notices, then the proxy is used
+    [("Send", "k1"), ("Send", "k1"), ("DeliverToHolder", None), ("DeliverToOwner", None), ("DeliverToHolder", None),
+     ("DeliverToOwner", None), ("DeliverToHolder", None), ("DeliverToHolder", None), ("Send", "k1"), ("DropProxy", "k1"),
+     ("DeliverToOwner", None), ("DeliverToOwner", None), ("DeliverToHolder", None), ("DeliverToOwner", None), ("DeliverToHolder", None),
+     ("PassBack", "k1"), ("DeliverToOwner", None)],
+    # the same with the pair form and a request in between
+    [("SendPair", "k1"), ("Send", "k1"), ("DeliverToHolder", None), ("DeliverToHolder", None), ("DeliverToOwner", None),
+     ("DeliverToOwner", None), ("DeliverToHolder", None), ("DeliverToHolder", None), ("PassBack", "k1"), ("DeliverToOwner", None),
+     ("Request", "k1"), ("DropProxy", "k1"), ("DeliverToOwner", None), ("DeliverToOwner", None), ("DeliverToOwner", None),
+     ("DeliverToHolder", None), ("DeliverToOwner", None), ("DeliverToHolder", None), ("PassBack", "k1"), ("DeliverToOwner", None)],
+    # two objects interleaved
+    [("Send", "k1"), ("Send", "k2"), ("Send", "k1"), ("DeliverToHolder", None), ("DeliverToHolder", None), ("DeliverToHolder", None),
+     ("DeliverToOwner", None), ("DeliverToOwner", None), ("DeliverToOwner", None), ("DeliverToHolder", None), ("DeliverToHolder", None),
+     ("DeliverToHolder", None), ("Send", "k1"), ("DropProxy", "k1"), ("DeliverToOwner", None), ("DeliverToHolder", None),
+     ("DeliverToOwner", None), ("DeliverToOwner", None), ("DeliverToHolder", None), ("PassBack", "k1"), ("DeliverToOwner", None),
+     ("PassBack", "k2"), ("DeliverToOwner", None)],
+]
+
+
+def scripted_history(chk, keys, actions, fresh):
+    """a fixed history (a behaviour of the specification: its trace goes to TLC like the random ones)"""
+    fx = Fixture(keys, fresh)
+    trace, hist = [], []
+    try:
+        for act, k in actions:
+            nt = len(fx.touched)
+            try:
+                delivered = apply_action(fx, act, k)
+            except (KeyError, IndexError) as ex:
+                chk.drift.append("scripted history %s: %s(%s) cannot be performed: %r" % (hist, act, k, ex))
+                break
+            hist.append("%s(%s)" % (act, k) if k else act)
+            chk.evaluated()
+            for key, msg in oracle(fx, act, k, delivered, nt):
+                chk.violation(key, "C10 %s (history: %s)" % (msg, hist), {"mode": "history", "keys": keys, "history": list(hist),
+                                                                          "fresh": fresh})
+            if fx.white:
+                p = fx.project()
+                ev = {"act": act, "k": k or "", "tab": [p["tab"][x] for x in keys], "nH": len(p["toH"]), "nO": len(p["toO"])}
+                if fresh:
+                    ev["pobj"] = [list(p["pobj"][x]) for x in keys]
+                else:
+                    ev["proxy"] = [p["proxy"][x] for x in keys]
+                trace.append(ev)
         drain(chk, fx, hist, keys)
         return trace, hist
     finally:
@@ -646,6 +719,11 @@ def main():
         chk.distinct(("hist", tuple(hist)))
         if i % 20 == 19:
             gc.collect()
+    for sc_ in SCRIPTS:
+        for fresh in (True,):
+            tr, hist = scripted_history(chk, keys, sc_, fresh)
+            (ftraces if fresh else traces).append(tr)
+            chk.distinct(("script", fresh, tuple(hist)))
     validate(chk, keys, traces)
     validate(chk, keys, ftraces, fresh=True)
     # executions nobody scheduled: the reference traffic of every connection of the repository's own tests, owner's end
